@@ -57,6 +57,8 @@ pub struct ChoicePoint {
     pub taken: usize,
     /// the taken candidate differs from the default policy (continue the running thread, no spontaneous timeout)
     pub deviation: bool,
+    /// number of locks held at this point by the thread the default policy would continue
+    pub holding: usize,
 }
 
 #[derive(Clone, Debug)]
@@ -272,10 +274,12 @@ impl State {
                     Policy::Random(rng) => rng.below(cands.len()),
                     Policy::Prefix(p) => p.get(taken_so_far).copied().unwrap_or(0).min(cands.len() - 1),
                 };
+                let holding = self.last_run.map_or(0, |c| self.th[c].held.len());
                 self.out.choices.push(ChoicePoint {
                     candidates: cands.len(),
                     taken: idx,
                     deviation: idx != 0,
+                    holding,
                 });
                 idx
             };
